@@ -37,6 +37,12 @@ mod bytecode;
 mod synth;
 #[path = "../c03_ttfuzz.rs"]
 mod ttfuzz;
+#[path = "../c03_ttedge.rs"]
+mod ttedge;
+#[path = "../c03_cffsynth.rs"]
+mod cffsynth;
+#[path = "../c03_extra.rs"]
+mod extra;
 
 extern "C" {
     fn FT_MulFix(a: c_long, b: c_long) -> c_long;
@@ -351,7 +357,7 @@ fn first_few(key: &str) -> bool {
     *n <= 4
 }
 
-fn mode_name(h: Option<Hinting>) -> String {
+pub fn mode_name(h: Option<Hinting>) -> String {
     match h {
         None => "unhinted".into(),
         Some(Hinting::Interpreter(t)) => format!("interp-{t:?}").to_lowercase(),
@@ -418,6 +424,80 @@ pub fn differential(cfg: &Config, s: &mut Session, path: &std::path::Path, ppems
 }
 
 pub static FRESH_INSTANCE_PER_GLYPH: std::sync::atomic::AtomicBool = std::sync::atomic::AtomicBool::new(false);
+/// per-glyph case descriptions of a generated font (appended to the oracle input as ` case=…`)
+pub static GLYPH_LABELS: std::sync::Mutex<Option<Vec<String>>> = std::sync::Mutex::new(None);
+
+fn glyph_label(gid: u32) -> String {
+    match GLYPH_LABELS.lock().unwrap().as_ref().and_then(|v| v.get(gid as usize)) {
+        Some(l) => format!(" case=[{l}]"),
+        None => String::new(),
+    }
+}
+
+/// what the comparison of one glyph found (computed without the session so that it can run on a worker thread)
+pub enum GlyphResult {
+    Compared { path_same: bool, path_detail: String, adv: Option<(f32, f32)> },
+    BothFail,
+    FreeTypeFailsOnly,
+    SkrifaFailsOnly(String),
+    SkrifaPanics(String),
+}
+
+pub fn eval_glyph(ft: &mut fauntlet::FreeTypeInstance, sk: &mut fauntlet::SkrifaInstance, ppem: u32, gid: GlyphId) -> GlyphResult {
+    let is_scaled = ppem != 0;
+    let mut ft_outline: Vec<PathElement> = vec![];
+    let mut sk_outline: Vec<PathElement> = vec![];
+    let ft_adv = ft.outline(gid, &mut RegularizingPen::new(&mut ft_outline, is_scaled));
+    let sk_adv = catch(|| sk.outline(gid, &mut RegularizingPen::new(&mut sk_outline, is_scaled)));
+    match (ft_adv, sk_adv) {
+        (Some(fa), Ok(Ok(sa))) => {
+            let same = ft_outline == sk_outline;
+            GlyphResult::Compared { path_same: same, path_detail: if same { String::new() } else { path_diff(&ft_outline, &sk_outline) }, adv: sa.map(|sa| (fa, sa)) }
+        }
+        (None, Ok(Err(_))) => GlyphResult::BothFail,
+        // FreeType refusing a glyph skrifa draws is not a mismatch of outlines fauntlet could report
+        // (it unwraps FreeType's result first).
+        (None, Ok(Ok(_))) => GlyphResult::FreeTypeFailsOnly,
+        (Some(_), Ok(Err(e))) => GlyphResult::SkrifaFailsOnly(format!("{e:?}")),
+        (_, Err(p)) => GlyphResult::SkrifaPanics(p),
+    }
+}
+
+#[allow(clippy::too_many_arguments)]
+pub fn record_glyph(s: &mut Session, name: &str, index: usize, ppem: u32, mode: Option<Hinting>, gid: GlyphId, r: GlyphResult) {
+    let input = || format!("font={name}#{index} gid={} ppem={ppem} mode={}{}", gid.to_u32(), mode_name(mode), glyph_label(gid.to_u32()));
+    match r {
+        GlyphResult::Compared { path_same: same, path_detail, adv } => {
+            s.count("diff:compared");
+            s.count(&format!("diff:mode:{}", mode_name(mode)));
+            if !same {
+                s.count(&format!("mismatch:path:{name}:ppem{ppem}:{}", mode_name(mode)));
+            }
+            // one glyph failing at every size and mode must not exhaust the harness' cap of
+            // recorded failures and hide a different glyph: record 4 per (font, glyph), count the rest
+            if same || first_few(&format!("path:{name}:{index}:{}", gid.to_u32())) {
+                s.oracle("outline:path==freetype", same, input, || path_detail);
+            } else {
+                s.count("mismatch:path:further-sizes-of-an-already-recorded-glyph");
+            }
+            if let Some((fa, sa)) = adv {
+                s.count("diff:advance-compared");
+                if fa != sa {
+                    s.count(&format!("mismatch:advance:{name}:ppem{ppem}:{}", mode_name(mode)));
+                }
+                if fa == sa || first_few(&format!("adv:{name}:{index}:{}", gid.to_u32())) {
+                    s.oracle("outline:advance==freetype", fa == sa, input, || format!("freetype {fa} skrifa {sa}"));
+                } else {
+                    s.count("mismatch:advance:further-sizes-of-an-already-recorded-glyph");
+                }
+            }
+        }
+        GlyphResult::BothFail => s.count("diff:both-fail"),
+        GlyphResult::FreeTypeFailsOnly => s.count("diff:freetype-fails-only"),
+        GlyphResult::SkrifaFailsOnly(e) => s.oracle("outline:skrifa-draws-what-freetype-loads", false, input, || format!("skrifa error {e}")),
+        GlyphResult::SkrifaPanics(p) => s.oracle("outline:skrifa-no-panic", false, input, || format!("panic {p}")),
+    }
+}
 
 #[allow(clippy::too_many_arguments)]
 fn compare_glyph(
@@ -430,56 +510,8 @@ fn compare_glyph(
     mode: Option<Hinting>,
     gid: GlyphId,
 ) {
-    let is_scaled = ppem != 0;
-    let mut ft_outline: Vec<PathElement> = vec![];
-    let mut sk_outline: Vec<PathElement> = vec![];
-    {
-        {
-                    let ft_adv = ft.outline(gid, &mut RegularizingPen::new(&mut ft_outline, is_scaled));
-                    let sk_adv = catch(|| sk.outline(gid, &mut RegularizingPen::new(&mut sk_outline, is_scaled)));
-                    let input = || format!("font={name}#{index} gid={} ppem={ppem} mode={}", gid.to_u32(), mode_name(mode));
-                    match (ft_adv, sk_adv) {
-                        (Some(fa), Ok(Ok(sa))) => {
-                            s.count("diff:compared");
-                            s.count(&format!("diff:mode:{}", mode_name(mode)));
-                            let same = ft_outline == sk_outline;
-                            if !same {
-                                s.count(&format!("mismatch:path:{name}:ppem{ppem}:{}", mode_name(mode)));
-                            }
-                            // one glyph failing at every size and mode must not exhaust the harness' cap of
-                            // recorded failures and hide a different glyph: record 4 per (font, glyph), count the rest
-                            if same || first_few(&format!("path:{name}:{index}:{}", gid.to_u32())) {
-                                s.oracle("outline:path==freetype", same, input, || path_diff(&ft_outline, &sk_outline));
-                            } else {
-                                s.count("mismatch:path:further-sizes-of-an-already-recorded-glyph");
-                            }
-                            if let Some(sa) = sa {
-                                s.count("diff:advance-compared");
-                                if fa != sa {
-                                    s.count(&format!("mismatch:advance:{name}:ppem{ppem}:{}", mode_name(mode)));
-                                }
-                                if fa == sa || first_few(&format!("adv:{name}:{index}:{}", gid.to_u32())) {
-                                    s.oracle("outline:advance==freetype", fa == sa, input, || format!("freetype {fa} skrifa {sa}"));
-                                } else {
-                                    s.count("mismatch:advance:further-sizes-of-an-already-recorded-glyph");
-                                }
-                            }
-                        }
-                        (None, Ok(Err(_))) => s.count("diff:both-fail"),
-                        (None, Ok(Ok(_))) => {
-                            s.count("diff:freetype-fails-only");
-                            // FreeType refusing a glyph skrifa draws is not a mismatch of outlines
-                            // fauntlet could report (it unwraps FreeType's result first).
-                        }
-                        (Some(_), Ok(Err(e))) => {
-                            s.oracle("outline:skrifa-draws-what-freetype-loads", false, input, || format!("skrifa error {e:?}"));
-                        }
-                        (_, Err(p)) => {
-                            s.oracle("outline:skrifa-no-panic", false, input, || format!("panic {p}"));
-                        }
-                    }
-        }
-    }
+    let r = eval_glyph(ft, sk, ppem, gid);
+    record_glyph(s, name, index, ppem, mode, gid, r);
 }
 
 fn corpus() -> Vec<std::path::PathBuf> {
@@ -532,10 +564,20 @@ fn outlines(cfg: &Config, s: &mut Session) {
 }
 
 fn run(cfg: &Config, s: &mut Session) {
+    // development aid: C03_ONLY=ttedge|cffsynth|extra runs a single differential layer (the check never sets it)
+    match std::env::var("C03_ONLY").as_deref() {
+        Ok("ttedge") => return ttedge::run(cfg, s),
+        Ok("cffsynth") => return cffsynth::run(cfg, s),
+        Ok("extra") => return extra::run(cfg, s),
+        _ => {}
+    }
     kernels(cfg, s);
     hypot_oracle(cfg, s);
     bytecode::run(cfg, s);
     synth::run(cfg, s);
     ttfuzz::run(cfg, s);
+    ttedge::run(cfg, s);
+    cffsynth::run(cfg, s);
     outlines(cfg, s);
+    extra::run(cfg, s);
 }
